@@ -475,6 +475,35 @@ def elem_val(dom, v):
     raise Unsupported("symbolic-length deque holds opaque array values only")
 
 
+@model("deque:setitem")
+def _dq_setitem(dom, args, kw):
+    dq, idx, v = args
+    dq_write(dom, dq)
+    c = dom.run.heap[dq.ref]
+    if isinstance(c, list):
+        if isinstance(idx, Sym):
+            raise Unsupported("symbolic index into a concrete deque")
+        try:
+            c[idx] = v
+        except IndexError:
+            raise PyExc(dom.make_exc("IndexError", ("deque index out of range",)))
+        freeze(dom, dq, v)
+        return None
+    n = c.hi - c.lo
+    if isinstance(idx, int):
+        pos = c.lo + idx if idx >= 0 else c.hi + idx
+        inb = (n > idx) if idx >= 0 else (n >= -idx)
+    else:
+        i = zint(idx)
+        pos = z3.If(i >= 0, c.lo + i, c.hi + i)
+        inb = z3.And(i < n, -i <= n)
+    if not dom.run.branch(inb):
+        raise PyExc(dom.make_exc("IndexError", ("deque index out of range",)))
+    dom.run.heap[dq.ref] = SymDeque(z3.Store(c.a, pos, elem_val(dom, v)), c.lo, c.hi)
+    freeze(dom, dq, v)
+    return None
+
+
 @model("deque:getitem")
 def _dq_getitem(dom, args, kw):
     dq, idx = args
@@ -1033,6 +1062,8 @@ def _arr_getitem(dom, args, kw):
         return new_arr(dom, uf("row", Vec, I, Vec)(mat_term(dom, c), zint(idx)))
     if isinstance(idx, (int, Sym)):
         return Sym(uf("getitem", Vec, I, R)(vec_of(dom, a), zint(idx)))
+    if isinstance(idx, tuple) and all(isinstance(i, (int, Sym)) for i in idx):
+        return Sym(uf("getitem%d" % len(idx), *([Vec] + [I] * len(idx) + [R]))(vec_of(dom, a), *[zint(i) for i in idx]))
     if isinstance(idx, Arr):
         return opaque(dom, "take", [a, idx])
     if isinstance(idx, slice):
@@ -1188,3 +1219,8 @@ def _lbfgs_inv_hess(dom, args, kw):
     o.f["sk"], o.f["yk"] = args
     dom.run.log.append(("hess_inv_built", args[0].ref, args[1].ref, dom.run.site))
     return o
+
+
+@model("ndarray.flat")
+def _flat(dom, args, kw):
+    raise Unsupported("call of ndarray.flat")
